@@ -7,6 +7,7 @@ import SlotVerif.Proofs.ShapeDecode
 import SlotVerif.Proofs.ShapeApply
 import SlotVerif.Proofs.ShapeBij
 import SlotVerif.Proofs.ShapeKeys
+import SlotVerif.Proofs.ShapeImage
 import SlotVerif.Proofs.AddInv
 /-!
 # C16 — Node shapes are canonical modulo renaming; derived Language impls are coherent
@@ -376,6 +377,19 @@ theorem weakShape_bijection_keys (n : Node) : SlotMap.keys (Node.weakShape n).2 
       rw [slots_eq_public]
       exact ShapeKeys.keys_public n x hx
     · exact weakShape_bijection_defined_on_slots n x
+
+/-- **the image of the bijection `weak_shape` returns is the free-slot set of the node** (`Proofs/ShapeImage.lean`: the renaming is
+defined, after each field, on what it was defined on before and on the field's free occurrences; a binder's entry is removed or the
+shadowed one restored) — with `weakShape_bijection_keys`: the bijection is a bijection from `slots(shape)` onto `slots(node)` -/
+theorem weakShape_bijection_image (n : Node) (x : Nat) :
+    x ∈ SlotMap.valuesVec (Node.weakShape n).2 ↔ x ∈ Node.slots n := by
+  rw [slots_eq_public]
+  exact ShapeImage.image_public n x
+
+/-- non-vacuity (kernel-checked): the shadowing node below has free slots `{8, 12}`; its bijection is `$0 ↦ 8, $8 ↦ 12`, and the binder's
+number `$4` is not a key -/
+example : (Node.weakShape { v := 0, fields := [.slot 8, .bind 8 (.app { id := 3, m := [(0, 8), (4, 12)] }), .slot 8] }).2 = [(0, 8), (8, 12)] := by
+  decide
 
 /-- non-vacuity (kernel-checked): a binder shadowing a free slot of the same name -/
 def exShadow : Node := { v := 0, fields := [.slot 8, .bind 8 (.app { id := 3, m := [(0, 8), (4, 12)] }), .slot 8] }
